@@ -1,7 +1,7 @@
 """C15 Shipped transports deliver messages intact — schema-agreement clauses only (E-TAB, E-PROV, E-Q)."""
 from engine.facts import CannotDecide, callee_is, path_matches, strip_generics
 from engine import tab
-from .common import norm_path
+from .common import guarded_by_variant, result_of, norm_path
 
 EXTRA_CONFIGS = ('serde-transport',)   # feature configurations re-analysed in the thorough tier
 META = {
@@ -188,17 +188,26 @@ def run(ctx):
         ss = F.trait_method('Sink', ty, 'start_send')
         sends = [(bb, t) for bb, t in ss.calls() if callee_is(t, *send_names)]
         ok = len(sends) == 1
+        det = ''
         if ok:
             bb, t = sends[0]
+            callterm = ('call', ss.id, bb)
             ir_ = P.root(P.operand(ss, t['args'][1], at=bb))
             ok = bool(ir_) and all(x == ('param', ss.id, 2) and not norm_path(p) for x, p in ir_)
-            # the inner call's error reaches the caller: the result is the call's (possibly map_err'd) result, or `?` propagates it
-            from .common import deep_roots
-            rr = deep_roots(P, P._local_whole(ss, 0))
-            ok = ok and any(P.unbound(x) == ('call', ss.id, bb) for x, _ in rr)
             recv = P.root(P.operand(ss, t['args'][0], at=bb))
             ok = ok and all(x == ('param', ss.id, 1) for x, _ in recv)
-        R.ob('C15.forward', (ty, 'start_send forwards its item'), ok, 'the item given to start_send is handed unchanged, exactly once, to the inner sender and a failure of that call is returned', [ss.loc(ss.d)])
+            # the inner call's outcome is the outcome reported: the result is the call's (possibly map_err'd) result / `?` propagates it, or it is rebuilt
+            # arm by arm (Ok only on the call's Ok edge, an Err built on its Err edge)
+            from .common import deep_roots
+            rr = deep_roots(P, P._local_whole(ss, 0))
+            direct = any(P.unbound(x) == callterm for x, _ in rr)
+            pred = lambda x: result_of(P, x, callterm, through=('Result::map_err',))
+            oks = [i for i, j, s_ in ss.aggregates('std::result::Result', 'Ok')]
+            errs = [i for i, j, s_ in ss.aggregates('std::result::Result', 'Err')]
+            rebuilt = bool(errs) and all(guarded_by_variant(F, P, ss, i, pred, ['Err', 'Break']) for i in errs) and all(guarded_by_variant(F, P, ss, i, pred, ['Ok', 'Continue']) for i in oks)
+            ok = ok and (direct or rebuilt) and all(guarded_by_variant(F, P, ss, i, pred, ['Ok', 'Continue']) for i in oks)
+            det = 'direct: %s, rebuilt per arm: %s' % (direct, rebuilt)
+        R.ob('C15.forward', (ty, 'start_send forwards its item'), ok, 'the item given to start_send is handed unchanged, exactly once, to the inner sender and a failure of that call is returned', [ss.loc(ss.d)], det)
         n_fw += 1
         pn = F.trait_method('Stream', ty, 'poll_next')
         polls = [(bb, t) for bb, t in pn.calls() if callee_is(t, *recv_names)]
@@ -206,43 +215,27 @@ def run(ctx):
         det = ''
         if ok:
             bb, t = polls[0]
-            # walk the chain of combinators from the return value back to the inner poll
-            cur = P._local_whole(pn, 0)
-            steps = 0
-            while steps < 6:
-                rr = P.root(cur)
-                if len(rr) != 1:
-                    ok = False
-                    det = 'return value has %d sources' % len(rr)
-                    break
-                x, p = rr[0]
-                xu = P.unbound(x)
-                if xu == ('call', pn.id, bb):
-                    break
-                if P.is_call(x, 'Poll::map'):
-                    args = P.args_of(x)
-                    # the closure must be `|o| o.map(Ok)`
-                    cl = [c for c, _ in P.root(args[1]) if c[0] == 'agg']
-                    good = False
-                    if len(cl) == 1:
-                        body = F.fns.get(P._agg_rv(cl[0]).get('adt_id'))
-                        if body is not None:
-                            br = P.root(P._local_whole(body, 0))
-                            if len(br) == 1 and P.is_call(br[0][0], 'Option::map'):
-                                a2 = P.args_of(br[0][0])
-                                src = P.root(a2[0])
-                                ctor = a2[1]
-                                good = all(s == ('param', body.id, 2) for s, _ in src) and ctor[0] == 'const' and (ctor[3] or '').split('::')[-1] == 'Ok'
-                    if not good:
-                        ok = False
-                        det = 'Poll::map closure is not `|o| o.map(Ok)`'
-                        break
-                    cur = args[0]
-                    steps += 1
+            inner = ('call', pn.id, bb)
+            ret = P._local_whole(pn, 0)
+            # (a) every item handed out is the inner stream's item, unchanged
+            item = P._field(P._variant(P._field(P._variant(P._field(P._variant(ret, 'Ready'), 0), 'Some'), 0), 'Ok'), 0)
+            irs = P.root(item)
+            item_path = (('v', 'Ready'), ('f', 0), ('v', 'Some'), ('f', 0))
+            good_item = bool(irs) and all(P.unbound(x) == inner and norm_path(p) in (item_path, item_path + (('v', 'Ok'), ('f', 0))) for x, p in irs)
+            # (b) end-of-stream and Pending are reported only when the inner stream reported them: aggregates building them sit on the matching edge
+            pred = lambda x: result_of(P, x, inner)
+            pred_payload = lambda x: any(P.unbound(q) == inner for q, _ in P.root(x, inline=False))
+            bad_sites = []
+            for i, j, s_ in pn.stmts():
+                rv = s_['rv']
+                if rv['k'] != 'agg' or s_.get('expn'):
                     continue
-                ok = False
-                det = 'unexpected step %s' % P.describe(x)
-                break
+                if rv.get('variant') == 'Pending' and not guarded_by_variant(F, P, pn, i, pred, ['Pending']):
+                    bad_sites.append(pn.loc(s_) + ' (Pending)')
+                if rv.get('variant') == 'None' and 'Option' in (rv.get('adt') or '') and not guarded_by_variant(F, P, pn, i, pred_payload, ['None']):
+                    bad_sites.append(pn.loc(s_) + ' (None)')
+            ok = good_item and not bad_sites
+            det = 'item sources: %s; unguarded Pending/None: %s' % ([P.describe(x) + str(list(norm_path(p))) for x, p in irs], bad_sites)
         R.ob('C15.forward', (ty, 'poll_next forwards inner items'), ok, 'poll_next returns the inner stream\'s items unchanged and in order (only errors are mapped)', [pn.loc(pn.d)], det)
         n_fw += 1
     # constructors cross-wire the endpoints
